@@ -3,6 +3,7 @@ package types
 import (
 	"context"
 	"fmt"
+	"github.com/sdcio/data-server/pkg/verifhook"
 	"time"
 
 	"github.com/sdcio/data-server/pkg/tree"
@@ -65,6 +66,7 @@ func (t *Transaction) Confirm() error {
 }
 
 func (t *Transaction) rollback() {
+	verifhook.Yield("timer.fired", t.transactionId)
 	ctx := context.Background()
 	t.transactionManager.Rollback(ctx, t.GetRollbackTransaction())
 }
